@@ -112,7 +112,8 @@ C09Ok(e, pre, x, r) ==
   ELSE \* no Block1 option: the 4.13 rule is three-valued
        LET is413 == r.out = OkR(TRUE) /\ r.resp.some /\ r.resp.v.code = CODE_TOO_LARGE IN
        \* size of the request as received: its stored payload counts whatever the code
-       /\ (ReqSize(req) > cfg.M /\ InBudgetDomain(NonPayload(req)) => is413 /\ ack.some)
+       \* (the hint is about the size: it names block 0, whatever the key saw before)
+       /\ (ReqSize(req) > cfg.M /\ InBudgetDomain(NonPayload(req)) => is413 /\ ack.some /\ ack.v.num = 0)
        /\ (ReqSize(req) + 32 <= cfg.M => ~is413)
 
 \* C08 on intercept_request: follow-up blocks are served from the cache
